@@ -385,6 +385,7 @@ func checkMain(args []string) {
 	only := fs.String("only", "", "run only this entry function")
 	verbose := fs.Bool("v", false, "verbose")
 	noEvidence := fs.Bool("no-evidence", false, "do not write the evidence file")
+	fs.IntVar(&maxFindingsPerEntry, "maxfind", 12, "distinct findings replayed per entry")
 	if len(args) < 1 {
 		fatal(fmt.Errorf("usage: gosym check <ID> [flags]"))
 	}
